@@ -522,6 +522,12 @@ def oracle(case, res):
     al, be = case["alpha"], case["beta"]
     tag = (f"(sps={case['sps']}, nsl={case['nsl']}, {case['pattern']}, a={a:.4g}, b-a={d:.4g}, sigma={case['sigma']:.3f}, bw={case['bwf']:.2f}R, "
            f"alpha={al:.3g}, beta={be:.3g}, seed={case['seed']})")
+    try:
+        _b = np.asarray(_bits(case, np.random.default_rng(case["seed"])))[:4096]
+        _per = max(1.0, case["sps"] / 10.0)
+        neff = {"s0": float(np.sum(_b == 0)) * _per, "s1": float(np.sum(_b == 1)) * _per}
+    except Exception:  # noqa  (patterns without a bit list, e.g. the directed square wave)
+        neff = {"s0": 1e9, "s1": 1e9}
     runs = []
     for which, sc, of in (("run1", 1.0, 0.0), ("run2", al, be)):
         run = res[which]
@@ -540,8 +546,16 @@ def oracle(case, res):
         if not (abs(f["mu1"] - B) <= 0.08 * D):
             v.append(("C17:mu1", f"{which}: mu1={f['mu1']:.6g}, level b={B:.6g}, error {abs(f['mu1'] - B) / D:.3f} of b-a {tag}"))
         for nm in ("s0", "s1"):
-            if not (S / 2 <= f[nm] <= 2 * S + 0.03 * D):
-                v.append((f"C17:{nm}", f"{which}: {nm}/(b-a)={f[nm] / D:.4f} outside [sigma/2, 2 sigma+3%], sigma={case['sigma']:.4f} {tag}"))
+            # The band is a demand on an ESTIMATE from a finite record.  The central 10 % window of a level holds about
+            # n_eff = (slots at that level) * max(1, sps/10) independent noise samples (the up-sampled points in between are
+            # interpolated, not independent); a sample standard deviation of n_eff Gaussian samples has the relative
+            # standard error 1/sqrt(2 (n_eff - 1)).  For the shortest records of the quantifier (64 slots at sps 8:
+            # n_eff ~ 20..30) ANY estimator dips below sigma/2 about once in 3000 records (seen on the unchanged tree, seed 49
+            # of a sweep: 0.476 sigma).  The lower bound is therefore widened by 4 standard errors: < 15 % for >= 256 slots at
+            # sps >= 16, and it still rejects a spread that is wrong by a factor.
+            lo = (S / 2) * max(0.0, 1.0 - 4.0 / math.sqrt(2.0 * max(neff[nm] - 1.0, 1.0)))
+            if not (lo <= f[nm] <= 2 * S + 0.03 * D):
+                v.append((f"C17:{nm}", f"{which}: {nm}/(b-a)={f[nm] / D:.4f} outside [sigma/2 (-4 standard errors for n_eff={neff[nm]:.0f}: {lo / D:.4f}), 2 sigma+3%], sigma={case['sigma']:.4f} {tag}"))
         if not (f["mu0"] < f["threshold"] < f["mu1"]):
             v.append(("C17:threshold", f"{which}: threshold {f['threshold']:.6g} not strictly between mu0 {f['mu0']:.6g} and mu1 {f['mu1']:.6g} {tag}"))
         if not (abs(f["t_right"] - f["t_left"] - 1) <= 0.1):
